@@ -28,6 +28,8 @@ KIN = {
     "central": (0.1, 30.0),
     "smallx": (XMIN * (1 + 1e-9), 1e4),
     "thr": (0.1, 4 * 1.51**2 * 0.1 / 0.9 * 1.001),
+    "nf4": (0.1, 10.0),
+    "high": (0.1, 1e5),  # above the top threshold: nf=6 in ZM-VFNS
 }
 INVALID_KIN = [
     ("x=0", 0.0, 30.0),
@@ -45,8 +47,8 @@ RULE = (
     "distinct_outcomes = distinct (classification, exception class/site) values"
 )
 ASSUMPTIONS = [
-    "only grid G6 (6 nodes, degree 2, log) and the three kinematic points central/smallx/thr plus the invalid-kinematics menu",
-    "explicit rejection = ValueError or NotImplementedError, or ModuleNotFoundError raised by the kind/process dispatch for polarised kinds with CC only",
+    "only grid G6 (6 nodes, degree 2, log) and the five kinematic points central/smallx/thr/nf4/high (ZM-VFNS nf=3,4,5,6) plus the invalid-kinematics menu",
+    "explicit rejection = ValueError or NotImplementedError whose innermost traceback frame is a literal `raise` statement (a ValueError escaping from list.index, float(), numpy etc. is an internal failure), or ModuleNotFoundError raised by the kind/process dispatch for polarised kinds with CC only",
     "pairs of axes that never meet inside one slice (e.g. TMC x NfFF 5, TMC x extra projectiles) are outside the bound",
     "proton target, default EW parameters, unpolarised beam",
 ]
@@ -86,6 +88,10 @@ def slices(tier):
             _cell(k, h, p, canon[p], sc, 0, tmc, "central")
             for k, h, p, sc, tmc in itertools.product(KINDS, HEAVY, PROCS, ["ZM-VFNS", "FFNS3", "FFN03"], [1, 2, 3])
         ]
+        s["S_nf_zm"] = [
+            _cell(k, h, p, canon[p], "ZM-VFNS", pto, 0, kp)
+            for k, h, p, pto, kp in itertools.product(KINDS, HEAVY, PROCS, [0, 1], ["thr", "nf4", "high"])
+        ]
     else:
         s["S_core"] = [
             _cell(k, h, p, canon[p], sc, pto, 0, "central")
@@ -104,7 +110,7 @@ def slices(tier):
         ]
         s["S_kin"] = [
             _cell(k, h, p, canon[p], sc, pto, 0, kp)
-            for k, h, p, sc, pto, kp in itertools.product(KINDS, HEAVY, PROCS, core_schemes, [0, 1, 2], ["smallx", "thr"])
+            for k, h, p, sc, pto, kp in itertools.product(KINDS, HEAVY, PROCS, core_schemes, [0, 1, 2], ["smallx", "thr", "nf4", "high"])
         ]
     s["S_invalid"] = [
         _cell(k, "total", p, canon[p], "ZM-VFNS", 0, tmc, inv[0])
@@ -172,6 +178,10 @@ def execute(cell):
         out = yrun.run(cell, {name: [kin]})
     except (ValueError, NotImplementedError) as e:
         info = yrun.classify_exception(e)
+        if not yrun.raised_explicitly(e):
+            # e.g. list.index / float() failing inside library code: an internal lookup failure, not a rejection
+            fp = dict(fpbase, cls="exception", **info)
+            return _viol(fp, f"{name} proc={cell['process']} {cell['scheme']} pto={cell['pto']} tmc={cell['tmc']} kin={cell['kin']}: {info['exc']} not raised by an explicit raise statement, at {info['site']} ({info['inner']}): {info['excmsg']}")
         return {
             "violations": [],
             "nontrivial": True,
@@ -255,7 +265,7 @@ LEVEL_TEXT = (
 )
 LEVEL_NOTE = (
     "Trusted: CPython, numpy isfinite, the traceback module (innermost yadism frame = fingerprint). ValueError/NotImplementedError are taken as "
-    "'explicit rejection' whatever their text; ModuleNotFoundError from the kind/process dispatch is accepted only for polarised kinds with CC. "
+    "'explicit rejection' only when produced by a literal raise statement (whatever their text); ModuleNotFoundError from the kind/process dispatch is accepted only for polarised kinds with CC. "
     "Open known findings (known_findings.json): N3LO massive grids with NaN; g1 at PTO 3."
 )
 TECHNIQUE = "explicit enumeration of a finite configuration lattice on the real implementation with an outcome-classification oracle (bounded-exhaustive model checking)"
